@@ -606,41 +606,46 @@ def obligations_for(prop, tier):
 def _obligations_for(prop, tier):
     thorough = tier == "thorough"
     if prop == "C01":
-        if not thorough:
-            obs = wf_cubes(3, ["private"], 2, name="kinds", timeout=150)
-            obs += wf_cubes(2, ["shared1", "shared2"], 3, name="kinds", timeout=150)
-            obs += p_progress_auto()
-            obs += p_absence(kinds=(0, 1, 2, 3), flags=(False, True))
-            obs += p_rules(rules=(0, 4, 5))
-            obs += p_double_edges(2)
-            obs += with_history(wf_cubes(3, ["private"], 2, name="kinds", edge_sets=[[(0, 1), (1, 2)], [(0, 1), (0, 2)]], kinds=(0, 1)), "after-backward", 1)
-            obs += p_subproject_edges(2)
-            # dependencies added after a first run, with the bulk editing call
-            obs += with_history(wf_cubes(3, ["private"], 2, name="kinds", edge_sets=[[(0, 1), (1, 2)], [(0, 2), (1, 2)]], kinds=(0, 1, 2)), "late-edges", 0)
-            # tasks listed in the workflow in another order than the dependencies run (finish constraints in a chain)
-            for order in ([0, 2, 1], [2, 1, 0]):
-                for ob in wf_cubes(3, ["private"], 2, name="kinds-listed-%s" % "".join(map(str, order)), edge_sets=[[(0, 1), (1, 2)]], kinds=(2, 3)) + \
-                        wf_cubes(3, ["private"], 2, name="kinds-listed-%s" % "".join(map(str, order)), edge_sets=[[(0, 1), (0, 2)], [(0, 2), (1, 2)]], kinds=(0, 2)):
-                    obs.append(dict(ob, cube={"spec": dict(ob["cube"]["spec"], tl_order=order)}))
-            obs += with_decoy(wf_cubes(3, ["private"], 2, name="kinds", edge_sets=[[(0, 1), (1, 2)]]), (0, 1))
-            obs += with_decoy(wf_cubes(3, ["private"], 2, name="kinds", edge_sets=[[(0, 1), (0, 2)]], kinds=(0, 2)), (1,))
-        else:
-            obs = wf_cubes(3, ["private", "shared2"], 3, name="kinds", H=12, timeout=900)
-            obs += p_double_edges(3)
-            obs += wf_cubes(2, ["shared1", "shared2", "private"], 4, name="kinds", H=12, timeout=600)
-            obs += p_progress_auto(wmax=4, H=12, timeout=600)
-            obs += p_absence(wmax=3, H=12, timeout=900)
-            obs += p_rules(wmax=3, H=12, timeout=600)
-            chain = [[(0, 1), (1, 2), (2, 3)], [(0, 1), (0, 2), (1, 3), (2, 3)]]
-            obs += wf_cubes(4, ["private"], 2, kinds=(0, 1), edge_sets=chain, H=12, name="kinds4", timeout=900)
-            obs += p_subproject_edges(3, H=12, timeout=600)
-            obs += with_history(wf_cubes(3, ["private"], 3, name="kinds", edge_sets=[[(0, 1), (1, 2)], [(0, 2), (1, 2)], [(0, 1), (0, 2)]], H=12, timeout=600), "late-edges", 0)
-            for order in ([0, 2, 1], [2, 1, 0], [1, 0, 2]):
-                for ob in wf_cubes(3, ["private"], 3, name="kinds-listed-%s" % "".join(map(str, order)), edge_sets=[[(0, 1), (1, 2)], [(0, 1), (0, 2)], [(0, 2), (1, 2)]], H=12, timeout=600):
-                    obs.append(dict(ob, cube={"spec": dict(ob["cube"]["spec"], tl_order=order)}))
-            obs += with_decoy(wf_cubes(3, ["private"], 3, name="kinds", edge_sets=[[(0, 1), (1, 2)], [(0, 1), (0, 2)]], H=12, timeout=600), (0, 1))
-            obs += with_decoy(wf_cubes(3, ["private"], 3, name="kinds", edge_sets=[[(0, 1), (1, 2)], [(0, 1), (0, 2)]], H=12, timeout=600), (1,))
-        return obs
+        # quick = the small families (with the history members) + the larger families that used to be the thorough tier (1 min on 16 cores);
+        # thorough adds four-task workflows over all four kinds, more work and a longer horizon
+        obs = wf_cubes(3, ["private"], 2, name="kinds", timeout=150)
+        obs += wf_cubes(2, ["shared1", "shared2"], 3, name="kinds", timeout=150)
+        obs += p_progress_auto()
+        obs += p_absence(kinds=(0, 1, 2, 3), flags=(False, True))
+        obs += p_rules(rules=(0, 4, 5))
+        obs += p_double_edges(2)
+        obs += with_history(wf_cubes(3, ["private"], 2, name="kinds", edge_sets=[[(0, 1), (1, 2)], [(0, 1), (0, 2)]], kinds=(0, 1)), "after-backward", 1)
+        obs += p_subproject_edges(2)
+        # dependencies added after a first run, with the bulk editing call
+        obs += with_history(wf_cubes(3, ["private"], 2, name="kinds", edge_sets=[[(0, 1), (1, 2)], [(0, 2), (1, 2)]], kinds=(0, 1, 2)), "late-edges", 0)
+        # tasks listed in the workflow in another order than the dependencies run (finish constraints in a chain)
+        for order in ([0, 2, 1], [2, 1, 0]):
+            for ob in wf_cubes(3, ["private"], 2, name="kinds-listed-%s" % "".join(map(str, order)), edge_sets=[[(0, 1), (1, 2)]], kinds=(2, 3)) + \
+                    wf_cubes(3, ["private"], 2, name="kinds-listed-%s" % "".join(map(str, order)), edge_sets=[[(0, 1), (0, 2)], [(0, 2), (1, 2)]], kinds=(0, 2)):
+                obs.append(dict(ob, cube={"spec": dict(ob["cube"]["spec"], tl_order=order)}))
+        obs += with_decoy(wf_cubes(3, ["private"], 2, name="kinds", edge_sets=[[(0, 1), (1, 2)]]), (0, 1))
+        obs += with_decoy(wf_cubes(3, ["private"], 2, name="kinds", edge_sets=[[(0, 1), (0, 2)]], kinds=(0, 2)), (1,))
+        obs += wf_cubes(3, ["private", "shared2"], 3, name="kinds", H=12, timeout=900)
+        obs += p_double_edges(3)
+        obs += wf_cubes(2, ["shared1", "shared2", "private"], 4, name="kinds", H=12, timeout=600)
+        obs += p_progress_auto(wmax=4, H=12, timeout=600)
+        obs += p_absence(wmax=3, H=12, timeout=900)
+        obs += p_rules(wmax=3, H=12, timeout=600)
+        chain = [[(0, 1), (1, 2), (2, 3)], [(0, 1), (0, 2), (1, 3), (2, 3)]]
+        obs += wf_cubes(4, ["private"], 2, kinds=(0, 1), edge_sets=chain, H=12, name="kinds4", timeout=900)
+        obs += p_subproject_edges(3, H=12, timeout=600)
+        obs += with_history(wf_cubes(3, ["private"], 3, name="kinds", edge_sets=[[(0, 1), (1, 2)], [(0, 2), (1, 2)], [(0, 1), (0, 2)]], H=12, timeout=600), "late-edges", 0)
+        for order in ([0, 2, 1], [2, 1, 0], [1, 0, 2]):
+            for ob in wf_cubes(3, ["private"], 3, name="kinds-listed-%s" % "".join(map(str, order)), edge_sets=[[(0, 1), (1, 2)], [(0, 1), (0, 2)], [(0, 2), (1, 2)]], H=12, timeout=600):
+                obs.append(dict(ob, cube={"spec": dict(ob["cube"]["spec"], tl_order=order)}))
+        obs += with_decoy(wf_cubes(3, ["private"], 3, name="kinds", edge_sets=[[(0, 1), (1, 2)], [(0, 1), (0, 2)]], H=12, timeout=600), (0, 1))
+        obs += with_decoy(wf_cubes(3, ["private"], 3, name="kinds", edge_sets=[[(0, 1), (1, 2)], [(0, 1), (0, 2)]], H=12, timeout=600), (1,))
+        if thorough:
+            obs += wf_cubes(4, ["private"], 2, kinds=(0, 1, 2, 3), edge_sets=chain, H=14, name="kinds4all", timeout=1500)
+            obs += wf_cubes(3, ["private", "shared2"], 4, name="kinds-w4", H=16, timeout=1500)
+            obs += with_history(wf_cubes(3, ["private"], 3, name="kinds", edge_sets=[[(0, 1), (1, 2)], [(0, 1), (0, 2)], [(0, 2), (1, 2)]], H=12, timeout=900), "after-backward", 1)
+        # a small member that reappears with larger ranges under the same name is subsumed by the later one
+        return list({ob["name"]: ob for ob in obs}.values())
     if prop in ("C02", "C03", "C04", "C06"):
         obs = p_contention(thorough, H=12 if thorough else 8, timeout=900 if thorough else 150)
         obs += p_facility(thorough, H=12 if thorough else 8, timeout=900 if thorough else 150)
